@@ -239,7 +239,7 @@ class PlanarCurve(BaseCurve):
             return tuple()
         if self.degree == 1 and other.degree == 1:
             params = Intersection.lines(self, other)
-            return (params,) if len(params) else tuple()
+            return (params,) if len(params) else None
         usample = list(Math.closed_linspace(self.npts + 3))
         vsample = list(Math.closed_linspace(other.npts + 3))
         pairs = []
